@@ -201,7 +201,7 @@ def check_C18(rep, fl):
     props_cache.check_C16_keys(rep, fl)
     # the pairings that carry or ignore the conflict hash (what happens to the policy's victims is not a collision matter)
     props_life.check_handle_item_pairing(rep, fl, rule="R18.4", only_sites=(
-        "try_insert args", "Delete => policy.remove + store.try_remove",
+        "try_insert args", "Delete => policy.remove + store.try_remove", "store removals: Delete and victims only",
         "Delete: un-charge conditional on conflict-checked removal", "New: re-charge of an existing index without conflict check"))
     props_store.keep_sites(rep, fl, props_life.check_remove_pair, ("store.try_remove then Delete*",))  # the marker carries the same (index, conflict)
 
